@@ -367,7 +367,7 @@ func gen(a hx.Args) {
 		}
 		o.emit()
 	}
-	n := a.N(900, 8000)
+	n := a.N(900, 20000)
 	for i := 0; i < n; i++ {
 		switch k := r.Intn(100); {
 		case k < 22:
